@@ -265,7 +265,17 @@ def run_real(case, offset=None):
         out["log_vols"] = np.array(st.log_vols, dtype=float)
         out["logLs"] = np.array(st.logLs, dtype=float)
         out["ns"] = [int(v) for v in st.nlive]
-        out["logw"] = np.array(st.log_posterior_weights, dtype=float)
+        # the reads of a finished state must not depend on their order or number: odd cases query the effective sample
+        # size (which normalises the array it is handed) BEFORE the weights; every case reads the weights again after
+        # the ESS, the evidence and its error have been queried (seeded change C02-c: a cached weights array)
+        ess_first = (len(ll) + int(n)) % 2 == 1
+        with np.errstate(all="ignore"):
+            if ess_first:
+                out["ess"] = float(st.effective_n_posterior_samples)
+            out["logw"] = np.array(st.log_posterior_weights, dtype=float)
+            out["ess"] = float(st.effective_n_posterior_samples)
+            _ = (st.log_evidence, st.log_evidence_error)
+            out["logw_again"] = np.array(st.log_posterior_weights, dtype=float)
         out["state"] = "ok"
     except Exception as e:  # noqa
         out["state"] = _exc(e)
@@ -358,6 +368,13 @@ def oracle(ctx, case, real, ref, fail=None):
                         fail("_NSIntegralState.log_posterior_weights:value",
                              f"log_post_w[{i}]={r!r}, quadrature {float(x)!r}")
                         break
+            if "logw_again" in real and not np.array_equal(real["logw"], real["logw_again"], equal_nan=True):
+                i = int(np.flatnonzero(~((real["logw"] == real["logw_again"])
+                                         | (np.isnan(real["logw"]) & np.isnan(real["logw_again"]))))[0]) \
+                    if len(real["logw"]) == len(real["logw_again"]) else -1
+                fail("_NSIntegralState.log_posterior_weights:reads-differ",
+                     f"log_posterior_weights read again after querying the effective sample size / evidence differs from "
+                     f"the first read (index {i}: {float(real['logw'][i])!r} then {float(real['logw_again'][i])!r})")
         if case["kind"] == "sampler":
             lx = real["logx_live"]
             if len(lx) != case["n"] or any(not close(r, x) for r, x in zip(lx, ref["logx_live"])):
@@ -730,6 +747,8 @@ def correspond(ctx):
                "exp(-1/n) is handed to the Rat model as a 128-bit dyadic; the theorems hold for any shrinkage in (0,1)",
                "live_points handed to NestedSampler.finalise has exactly nlive entries (C01: live.length = n)")
     ctx.trust("hand-written model Model/Quadrature.lean (linear-domain reading of the log-space code); tie = this correspondence",
+              "hand-written model Model/Information.lean (information recursion, logarithm as a table of 60-digit mpmath values "
+              "of the model's own exact evidences); tie = value-by-value comparison of state.info and log_evidence_error",
               "mpmath log/exp at 60 digits (used to take logarithms of the exact rationals and for the independent reference)",
               "driver output rounding roundDy (validated against Python fractions on every run)")
     rng = ctx.rng
@@ -776,6 +795,11 @@ def correspond(ctx):
     for i in range(0, len(cases), chunk):
         run_cases(ctx, cases[i:i + chunk])
     boundary(ctx)
+    # the information recursion and log_evidence_error (Model/Information.lean)
+    from . import c02_info
+    info_cases = c02_info.fixed_cases() + [c for _, c in cases if len(c["L"]) <= 160][:ctx.scale(150, 1500)]
+    for i in range(0, len(info_cases), chunk):
+        c02_info.run(ctx, info_cases[i:i + chunk])
 
 
 def search(ctx):
